@@ -258,8 +258,7 @@ class Executor:
         if g['init'] is not None:
             val = s.const(st, g['ty'], g['init'])
             s.write_cells(cells, 0, g['ty'], val)
-        else:
-            if g['const']: raise Unsupported('extern const ' + gname)
+        # (an external global such as a vtable or type_info object: opaque contents, only its address is meaningful)
         s.ginit = getattr(s, 'ginit', {})
         s.ginit[rid] = cells
         return Ptr(rid, 0)
@@ -1098,6 +1097,8 @@ class Executor:
             for i in range(len(ca)):
                 x, y = ca[i], cb[i]
                 if x is y or (x is not None and y is not None and x[0] is y[0] and x[1] == y[1]): continue
+                if (x is None or y is None) and isinstance((x or y)[0], str):
+                    out[i] = x or y; continue      # pointer cell written on one side only (the other side never initialised the slot)
                 if x is not None and y is not None and (isinstance(x[0], str) or isinstance(y[0], str)):
                     if isinstance(x[0], str) and isinstance(y[0], str) and x[0] == 'ptr' and y[0] == 'ptr':
                         out[i] = ('ptr', s.merge_ptr(c, x[1], y[1]))
